@@ -429,7 +429,7 @@ def _decorate_namespace_property(
             contract_checker.__postconditions__ = postconditions  # type: ignore
 
     if fget != value.fget or fset != value.fset or fdel != value.fdel:
-        namespace[key] = property(fget=fget, fset=fset, fdel=fdel)
+        namespace[key] = property(fget=fget, fset=fset, fdel=fdel, doc=value.__doc__)
 
 
 def _dbc_decorate_namespace(
